@@ -639,7 +639,14 @@ impl<T> AutoGrowCircularQueue<T> {
     ///
     /// Returns `ZiporaError::MemoryError` if allocation fails
     pub fn reserve(&mut self, additional: usize) -> Result<()> {
-        let required = self.len + additional;
+        // One slot always stays free (len <= capacity - 1, as in push_back): with
+        // len == capacity head == tail, which clear(), clone(), Drop and Debug read as
+        // an empty ring.
+        let required = self
+            .len
+            .checked_add(additional)
+            .and_then(|r| r.checked_add(1))
+            .ok_or_else(|| ZiporaError::invalid_data("capacity overflow"))?;
         if required <= self.capacity {
             return Ok(());
         }
